@@ -7,6 +7,7 @@ import re
 
 from ..cfg import CFG, walk_shallow
 from ..facts import MULTISET_PRESERVING, calls_in, field_writes, is_self_call, is_super_call
+from .. import roles
 from ..index import ClassInfo, FuncInfo, dotted_of, norm, own_nodes, short
 
 PROPERTY = "C01"
@@ -318,7 +319,7 @@ WRITERS: dict[tuple[str, str], set[str]] = {
     (_V, "_index"): {"onnx_ir._core:Value.__init__", "onnx_ir._core:Node._create_outputs", "onnx_ir._core:Node.resize_outputs"},
     (_V, "_uses"): {"onnx_ir._core:Value.__init__", "onnx_ir._core:Value._add_usage", "onnx_ir._core:Value._remove_usage"},
     (_N, "_graph"): {"onnx_ir._core:Node.__init__", "onnx_ir._core:Node.graph.setter"},
-    (_N, "graph"): {"onnx_ir._core:Graph._set_node_graph_to_self_and_assign_names", "onnx_ir._core:Graph.remove"},
+    (_N, "graph"): {"onnx_ir._core:Graph.remove"},  # + the adoption hook (role "graph-adoption-hook")
     (_N, "_inputs"): {"onnx_ir._core:Node.__init__", "onnx_ir._core:Node.resize_inputs", "onnx_ir._core:Node.replace_input_with"},
     (_N, "_outputs"): {"onnx_ir._core:Node.__init__", "onnx_ir._core:Node.resize_outputs"},
     (_G, "_nodes"): {"onnx_ir._core:Graph.__init__", "onnx_ir._core:Graph.append", "onnx_ir._core:Graph.extend",
@@ -405,6 +406,9 @@ def rule_r2(ctx):
             allowed = set()
             for ck in owners:
                 allowed |= WRITERS[(ck, w.field)]
+                if (ck, w.field) == (_N, "graph"):
+                    # the adoption hook is recognised by what it does, whatever its private name (sa/roles.py)
+                    allowed |= {h.key for h in roles.find(repo, "graph-adoption-hook")}
             ok = f.key in allowed
             if not ok:
                 # a private helper that exists only as a part of its callers (every call of it is expanded, sa/inline.py)
@@ -516,10 +520,12 @@ def rule_r3(ctx):
             inst = f"{f.local}: {norm(w.call)}"
             if w.method in ("append", "extend", "insert_after", "insert_before"):
                 arg = w.call.args[-1] if w.call.args else None
-                ok = _flows_from_set_graph(f, arg, w.call)
+                hook_names = {h.name for h in roles.find(repo, "graph-adoption-hook")}
+                ctx.require(bool(hook_names), "no private Graph method stores `<node>.graph = self` (the adoption hook)")
+                ok = _flows_from_set_graph(f, arg, w.call, hook_names)
                 ctx.check("R3", inst, ok, f, w.call,
-                          "nodes are linked into the graph without _set_node_graph_to_self_and_assign_names on them",
-                          how="argument data-flows from / is dominated by _set_node_graph_to_self_and_assign_names")
+                          f"nodes are linked into the graph without the adoption hook ({'/'.join(sorted(hook_names))}) on them",
+                          how="argument data-flows from / is dominated by the adoption hook")
             elif w.method == "remove":
                 cfg = CFG(f.node)
                 arg = norm(w.call.args[0]) if w.call.args else ""
@@ -648,44 +654,70 @@ def _same_block(a, b) -> bool:
     return block(a) is block(b)
 
 
-def _flows_from_set_graph(f: FuncInfo, arg, call) -> bool:
-    HOOK = "_set_node_graph_to_self_and_assign_names"
+def _flows_from_set_graph(f: FuncInfo, arg, call, hook_names) -> bool:
+    def is_hook(c):
+        return any(is_self_call(c, h) for h in hook_names)
+
     if arg is None:
         return False
     cfg = CFG(f.node)
-    if isinstance(arg, ast.Name):
-        # direct: self._set…(node) dominates the call with the same argument
+    b = cfg.nodes_containing(call)
+    if not b or not isinstance(arg, ast.Name):
+        return False
+
+    def assigns_of(name):
+        return [n for n in own_nodes(f.node) if (isinstance(n, ast.Assign) and any(isinstance(t, ast.Name) and t.id == name for t in n.targets))
+                or (isinstance(n, ast.AnnAssign) and n.value is not None and isinstance(n.target, ast.Name) and n.target.id == name)]
+
+    def between(first, m, at) -> bool:
+        """Statement m can run after `first` and before `at`."""
+        fm = cfg.node_of(m)
+        return bool(fm) and fm[0].id != first.id and _reaches(cfg, first, fm[0]) and _reaches(cfg, fm[0], at)
+
+    def adopted(name: str, at, depth=0) -> bool:
+        """Every element of the collection (or the node) called `name` has been through the hook when `at` runs."""
+        if depth > 4:
+            return False
+        # direct: self.<hook>(node) dominates the call with the same argument
         for c in calls_in(f):
-            if is_self_call(c, HOOK) and c.args and norm(c.args[0]) == arg.id:
-                a, b = cfg.nodes_containing(c), cfg.nodes_containing(call)
-                if a and b and cfg.dominates(a[0], b[0]):
+            if is_hook(c) and c.args and norm(c.args[0]) == name:
+                a = cfg.nodes_containing(c)
+                if a and cfg.dominates(a[0], at):
                     return True
-        # through a local built from the hook's results: x = [self._set…(n) for n in x]
-        for n in own_nodes(f.node):
-            if isinstance(n, ast.Assign) and any(isinstance(t, ast.Name) and t.id == arg.id for t in n.targets):
-                v = n.value
-                if isinstance(v, (ast.ListComp, ast.GeneratorExp)) and isinstance(v.elt, ast.Call) and is_self_call(v.elt, HOOK):
-                    a, b = cfg.node_of(n), cfg.nodes_containing(call)
-                    if a and b and cfg.dominates(a[0], b[0]):
-                        # and no later rebinding to something else between
-                        later = [m for m in own_nodes(f.node) if isinstance(m, ast.Assign) and m is not n
-                                 and any(isinstance(t, ast.Name) and t.id == arg.id for t in m.targets)
-                                 and m.lineno > n.lineno]  # fmt: skip
-                        if not later:
-                            return True
+        for n in assigns_of(name):
+            a = cfg.node_of(n)
+            if not a or not cfg.dominates(a[0], at):
+                continue
+            # no later rebinding to something else between
+            if any(between(a[0], m, at) for m in assigns_of(name) if m is not n):
+                continue
+            v = n.value
+            # through a local built from the hook's results: x = [self.<hook>(n) for n in x]
+            if isinstance(v, (ast.ListComp, ast.GeneratorExp)) and isinstance(v.elt, ast.Call) and is_hook(v.elt):
+                return True
+            # a plain copy of an adopted collection (what `x = helper(...)` leaves once the helper is expanded)
+            if isinstance(v, ast.Name) and adopted(v.id, a[0], depth + 1):
+                return True
+            # a list that only ever receives results of the hook: x = [] … for n in C: x.append(self.<hook>(n))
+            if isinstance(v, ast.List) and not v.elts:
+                adds = [c for c in calls_in(f) if isinstance(c.func, ast.Attribute) and isinstance(c.func.value, ast.Name) and c.func.value.id == name
+                        and c.func.attr in ("append", "extend", "insert")]
+                others = [x for x in own_nodes(f.node) if isinstance(x, ast.AugAssign) and isinstance(x.target, ast.Name) and x.target.id == name]
+                if adds and not others and all(c.func.attr == "append" and len(c.args) == 1 and isinstance(c.args[0], ast.Call) and is_hook(c.args[0]) for c in adds):
+                    return True
         # through a loop that applies the hook to every element of the very collection that is linked afterwards:
-        #   for n in nodes: self._set…(n)   …   self._nodes.extend(nodes)
+        #   for n in nodes: self.<hook>(n)   …   self._nodes.extend(nodes)
         # (the hook hands its argument back, so linking the collection itself links the adopted nodes); the loop runs to
         # completion - no break / continue / return inside - and the collection is not rebound in between
-        for lp in (x for x in own_nodes(f.node) if isinstance(x, ast.For) and isinstance(x.target, ast.Name) and norm(x.iter) == arg.id):
-            hooked = any(is_self_call(c, HOOK) and c.args and norm(c.args[0]) == lp.target.id for st in lp.body for c in ast.walk(st) if isinstance(c, ast.Call))
+        for lp in (x for x in own_nodes(f.node) if isinstance(x, ast.For) and isinstance(x.target, ast.Name) and norm(x.iter) == name):
+            hooked = any(is_hook(c) and c.args and norm(c.args[0]) == lp.target.id for st in lp.body for c in ast.walk(st) if isinstance(c, ast.Call))
             exits = any(isinstance(x, (ast.Break, ast.Continue, ast.Return)) for st in lp.body for x in ast.walk(st))
-            a, b = [x for x in cfg.node_of(lp) if x.kind == "iter"], cfg.nodes_containing(call)
-            rebound = [m for m in own_nodes(f.node) if isinstance(m, ast.Assign) and any(isinstance(t, ast.Name) and t.id == arg.id for t in m.targets)
-                       and m.lineno > lp.lineno and m.lineno < call.lineno]
-            if hooked and not exits and a and b and cfg.dominates(a[0], b[0]) and not rebound:
+            a = [x for x in cfg.node_of(lp) if x.kind == "iter"]
+            if hooked and not exits and a and cfg.dominates(a[0], at) and not any(between(a[0], m, at) for m in assigns_of(name)):
                 return True
-    return False
+        return False
+
+    return adopted(arg.id, b[0])
 
 
 def _normalise_hook(f: FuncInfo, drop_producer: bool) -> str:
